@@ -35,6 +35,35 @@ OPS = [
     (r'\.is_empty\(\)', '.len() == 1'),
     (r'\bSome\(Ok\(\(\)\)\)', 'None'),
 ]
+OPS2 = [
+    (r' <= ', ' == '), (r' >= ', ' == '),
+    (r'\.min\(', '.max('), (r'\.max\(', '.min('),
+    (r'\.len\(\)(?! [-+] 1)', '.len() + 1'), (r'\.len\(\)(?! [-+] 1)', '.len() - 1'),
+    (r'\.first\(\)', '.last()'), (r'\.last\(\)', '.first()'),
+    (r'\.next\(\)', '.next_back()'), (r'\.next_back\(\)', '.next()'),
+    (r'\bSome\(n\)', 'Some(n + 1)'),
+    (r'\.is_err\(\)', '.is_ok()'), (r'\.is_ok\(\)', '.is_err()'),
+    (r'\.ok_or\(', '.ok_or_else(|| '),   # usually a compile error; harmless
+    (r'\.take\(\)', '.clone()'),
+    (r'\.capacity\(\)', '.buffer().len()'), (r'\.buffer\(\)\.len\(\)', '.capacity()'),
+    (r'get_buf\(\)\.len\(\)', 'buf_reader.capacity()'),
+    (r'\.position\.line\b', '.position.byte'), (r'\.position\.byte\b', '.position.line'),
+    (r'\bn_threads\b', 'queue_len'), (r'\bqueue_len\b', 'n_threads'),
+    (r'\bempty_send\b', 'done_send'), (r'\bdone_send\b', 'empty_send'),
+    (r'\bempty_recv\b', 'done_recv'), (r'\bdone_recv\b', 'empty_recv'),
+    (r'\btrim_cr\(([^()]*)\)', r'\1'),
+    (r"b'\\n'", "b'\\r'"), (r"b'\\r'", "b'\\n'"), (r"b' '", "b'\\t'"), (r"b'>'", "b'@'"), (r"b'@'", "b'>'"), (r"b'\+'", "b'-'"),
+    (r'\bpos\.0\b', 'pos.1'),
+    (r'\bseq_pos\b', 'positions'),
+    (r'\.skip\(1\)', ''), (r'\.skip\(1\)', '.skip(2)'),
+    (r'\.nth\(1\)', '.nth(0)'), (r'splitn\(2,', 'splitn(3,'),
+    (r'\.chunks\(', '.rchunks('),
+    (r'\* 2\b', '* 3'), (r'<< 23', '<< 22'),
+]
+NEGATE = re.compile(r'^(\s*)(\} else )?(if|while) (?!let )(.*) \{\s*$')
+DROPERR = re.compile(r'^(\s*)([^=]*[\w)\]])\?;\s*$')
+DELETE2 = re.compile(r'^\s*(?!let |return|break|continue|self\.|rset\.|record_set\.|buf_pos\.|bp\.)[a-z_][\w.]*(\(.*\)|\.[\w.]+\(.*\))(\.ok\(\))?;\s*$')
+ANDDROP = re.compile(r'(?<= )([^&|(){}]+?) && ')
 DELETE = re.compile(r'^\s*(self|rset|record_set|buf_pos|bp)\.[\w.]+(\(.*\)| [-+]?= .*);\s*$')
 
 
@@ -46,7 +75,7 @@ def code_part(line):
     return line if i < 0 else line[:i]
 
 
-def gen():
+def gen(extra=False):
     os.makedirs(W, exist_ok=True)
     out = []
     for f in FILES:
@@ -70,14 +99,43 @@ def gen():
                     out.append({'file': f, 'line': n + 1, 'old': m.group(0), 'new': new, 'text': mut, 'orig': line})
             if DELETE.match(code):
                 out.append({'file': f, 'line': n + 1, 'old': s, 'new': '<deleted>', 'text': '', 'orig': line})
+            if extra:
+                for rx, new in OPS2:
+                    for m in re.finditer(rx, code):
+                        if code[:m.start()].count('"') % 2 == 1:
+                            continue
+                        rep = m.expand(new) if '\\1' in new else new
+                        mut = code[:m.start()] + rep + code[m.end():] + line[len(code):]
+                        out.append({'file': f, 'line': n + 1, 'old': m.group(0), 'new': rep, 'text': mut, 'orig': line})
+                m = NEGATE.match(code)
+                if m:
+                    out.append({'file': f, 'line': n + 1, 'old': m.group(4), 'new': '!(' + m.group(4) + ')', 'orig': line,
+                                'text': '%s%s%s !(%s) {' % (m.group(1), m.group(2) or '', m.group(3), m.group(4))})
+                m = DROPERR.match(code)
+                if m and 'let ' not in m.group(2):
+                    out.append({'file': f, 'line': n + 1, 'old': '?;', 'new': '<error dropped>', 'orig': line,
+                                'text': '%slet _ = %s;' % (m.group(1), m.group(2).strip())})
+                if DELETE2.match(code):
+                    out.append({'file': f, 'line': n + 1, 'old': s, 'new': '<deleted>', 'text': '', 'orig': line})
+                for m in ANDDROP.finditer(code):
+                    if re.match(r'^\s*(\} else )?(if|while) ', code) and code[:m.start()].count('"') % 2 == 0:
+                        out.append({'file': f, 'line': n + 1, 'old': m.group(0), 'new': '<conjunct dropped>', 'orig': line,
+                                    'text': code[:m.start()] + code[m.end():] + line[len(code):]})
     seen = set()
     uniq = []
+    base = 0
+    if extra:
+        # only mutants the first survey did not contain; ids continue after it
+        for l in open(os.path.join(HERE, 'survey', 'mutants.v1.jsonl')):
+            m0 = json.loads(l)
+            seen.add((m0['file'], m0['line'], m0['text']))
+            base = max(base, m0['id'] + 1)
     for m in out:
         k = (m['file'], m['line'], m['text'])
         if k in seen or m['text'] == m['orig']:
             continue
         seen.add(k)
-        m['id'] = len(uniq)
+        m['id'] = base + len(uniq)
         uniq.append(m)
     with open(os.path.join(W, 'mutants.jsonl'), 'w') as fh:
         for m in uniq:
@@ -235,7 +293,7 @@ if __name__ == '__main__':
     cmd = sys.argv[1]
     jobs = int(sys.argv[sys.argv.index('--jobs') + 1]) if '--jobs' in sys.argv else 10
     if cmd == 'gen':
-        gen()
+        gen('--extra' in sys.argv)
     elif cmd == 'suite':
         suite(jobs)
     elif cmd == 'checks':
